@@ -248,3 +248,39 @@ K("awkward_ByteMaskedArray_reduce_next_nonlocal_nextshifts_fromshifts_64",
   loops={"L0": ["0 <= i", "i <= length", "k == W(mask, valid_when, i)", "nullsum == i - W(mask, valid_when, i)"]},
   store_asserts={"nextshifts": ["(mask[i] != 0) == valid_when", "at == W(mask, valid_when, i)", "value == shifts[i] + i - W(mask, valid_when, i)"]},
   serves=["C03", "C12", "C13"])
+
+
+# ---- C03: helpers of the non-innermost reduction
+# a copy of the offsets and the length of the longest list
+K("awkward_ListOffsetArray_reduce_nonlocal_maxcount_offsetscopy_64",
+  loops={"L0": ["0 <= i", "maxcount[0] >= 0", "forall(q, 0, i + 1, offsetscopy[q] == offsets[q])",
+                "forall(q, 0, i, offsets[q + 1] - offsets[q] <= maxcount[0])",
+                "maxcount[0] == 0 or exists(q, 0, i, offsets[q + 1] - offsets[q] == maxcount[0])"]},
+  ensures_ok=["forall(q, 0, length + 1, offsetscopy[q] == offsets[q])",
+              "forall(q, 0, length, offsets[q + 1] - offsets[q] <= maxcount[0])", "maxcount[0] >= 0",
+              "maxcount[0] == 0 or exists(q, 0, length, offsets[q + 1] - offsets[q] == maxcount[0])"],
+  serves=["C03", "C12", "C13"])
+
+# the offsets of the reduced lists: entry k is the number of elements whose parent is below k (every k up to
+# outlength, empty groups included)
+K("awkward_ListOffsetArray_reduce_local_outoffsets_64",
+  loops={"L0": ["0 <= i", "0 - 1 <= last", "k == last + 1", "forall(q, 0, i, parents[q] <= last)"],
+         "L0.0": ["0 - 1 <= last", "k == last + 1", "forall(q, 0, i, parents[q] <= last)"],
+         "L1": ["0 <= k", "forall(q, 0, lenparents, parents[q] < k)"]},
+  store_asserts={"outoffsets@L0.0": ["at == k", "value == i", "k <= parents[i]", "forall(q, 0, i, parents[q] < k)"],
+                 "outoffsets@L1": ["at == k", "value == lenparents", "forall(q, 0, lenparents, parents[q] < k)"]},
+  serves=["C03", "C12", "C13"])
+
+# ---- C08: the number of contents a union needs is one more than its largest tag
+K("awkward_UnionArray_regular_index_getsize",
+  loops={"L0": ["0 <= i", "size[0] >= 0", "forall(q, 0, i, fromtags[q] <= size[0])",
+                "size[0] == 0 or exists(q, 0, i, fromtags[q] == size[0])"]},
+  ensures_ok=["size[0] >= 1", "forall(q, 0, length, fromtags[q] < size[0])",
+              "size[0] == 1 or exists(q, 0, length, fromtags[q] == size[0] - 1)"],
+  serves=["C08", "C12", "C13"])
+
+# ---- C01 / C02: positions of a strided n-dimensional array made contiguous
+FILL("awkward_NumpyArray_contiguous_init", "toptr", "skip", "@*stride", serves=["C02"])
+K("awkward_NumpyArray_contiguous_next",
+  store_asserts={"topos": ["at == i*skip + j", "value == frompos[i] + j*stride"]},
+  serves=["C02", "C12", "C13"])
